@@ -545,7 +545,9 @@ class Project(MessageHandler):
 
         Also compute start/end dates for container tasks based on children.
         """
-        for task in self.tasks:
+        # Children before parents (tasks are stored parent first), so that a chain of
+        # nested containers completes in one pass and dependents become ready at once
+        for task in reversed(list(self.tasks)):
             if task.leaf():
                 continue  # Skip leaf tasks
 
